@@ -50,9 +50,9 @@ Definition t_w : store :=
     and another SSTORE, then a successful precompile call, a self-destruct and a create *)
 Definition ex_script : list prog :=
   [OAddBalance 2 (5 * U + 7); OSetState 1 2 9;
-   PFrame [OSetNonce 1 4; PPrecompile [(1, 2, 30)] false; OSetState 1 3 8; OSuicide 4 2] true;
-   PPrecompile [(1, 3, 10); (2, 1, 1)] false; OTouch 1; OTouch 3;
-   PFrame [PPrecompile [(3, 1, 2)] true; OCreate 5; OSetCode 5 2] false;
+   PFrame [OSetNonce 1 4; PPrecompile [OBankSend 1 2 30] false; OSetState 1 3 8; OSuicide 4 2] true;
+   PPrecompile [OBankSend 1 3 10; OBankSend 2 1 1] false; OTouch 1; OTouch 3;
+   PFrame [PPrecompile [OBankSend 3 1 2] true; OCreate 5; OSetCode 5 2] false;
    OSuicide 4 1; OSetNonce 1 6].
 
 Example frame_atomicity_nonvacuous :
@@ -70,11 +70,11 @@ Example balance_views_nonvacuous :
     [(91 * U, 91); (54 * U, 54); (10 * U, 10)].
 Proof. vm_compute. reflexivity. Qed.
 
-Definition ten_calls : list prog := repeat (PPrecompile [(1, 2, 1)] false) 10.
+Definition ten_calls : list prog := repeat (PPrecompile [OBankSend 1 2 1] false) 10.
 Example call_limit_nonvacuous :
   let s := run (PFrame ten_calls false) (init {| repaired := true; maxc := 10; blocked := [] |} t_w) in
   calls s = 10 /\
-  let s' := precompile_call s [(1, 2, 1)] false in
+  let s' := run (PPrecompile [OBankSend 1 2 1] false) s in
   calls s' = 11 /\ length (journal s') = length (journal s) /\
   acct_of (commit s') 2 = Some (60, 0, 0).
 Proof. vm_compute. repeat split; reflexivity. Qed.
@@ -86,8 +86,8 @@ Definition t_b : store :=
                       else if a =? 7 then Some {| a_bal := 0; a_nonce := 0; a_code := 0 |} else None;
      stor := fun _ _ => 0 |}.
 Definition ex_blocked : list prog :=
-  [PFrame [OSubBalance 1 (12 * U); OAddBalance 3 (5 * U); OAddBalance 7 (7 * U); PPrecompile [(1, 3, 1)] false] true;
-   OSetNonce 1 2; PPrecompile [(1, 3, 2)] false].
+  [PFrame [OSubBalance 1 (12 * U); OAddBalance 3 (5 * U); OAddBalance 7 (7 * U); PPrecompile [OBankSend 1 3 1] false] true;
+   OSetNonce 1 2; PPrecompile [OBankSend 1 3 2] false].
 Example refused_flush_nonvacuous :
   wf_body 10 ex_blocked (r_init [7] t_b) = true /\
   let s0 := run (PFrame [OSubBalance 1 (12 * U); OAddBalance 3 (5 * U); OAddBalance 7 (7 * U)] false)
@@ -95,6 +95,18 @@ Example refused_flush_nonvacuous :
   flush_fail (precompile_snapshot s0) = Some 7 /\
   let t := commit (run (PFrame ex_blocked false) (init {| repaired := true; maxc := 10; blocked := [7] |} t_b)) in
   map (acct_of t) [1; 3; 7] = [Some (98, 2, 0); Some (2, 0, 0); Some (0, 0, 0)].
+Proof. vm_compute. repeat split; reflexivity. Qed.
+
+(** a precompile body that moves coins AND writes EVM state (an ERC20 mint: balance slot and total
+    supply of contract 4), with a nested frame, inside a frame that reverts; then the same call kept *)
+Definition ex_funtoken : list prog :=
+  [PFrame [PPrecompile [OBankSend 1 2 7; OIncState 4 2 7; OIncState 4 3 7; OAddLog;
+                        PFrame [OIncState 4 2 100] true; OSetNonce 2 1] false; OSetState 4 1 5] true;
+   PPrecompile [OBankSend 1 2 3; OIncState 4 2 3; OIncState 4 3 3; OAddLog] false].
+Example body_with_evm_writes_nonvacuous :
+  wf_body 10 ex_funtoken (r_init [] t_w) = true /\
+  let t := commit (run (PFrame ex_funtoken false) (init {| repaired := true; maxc := 10; blocked := [] |} t_w)) in
+  map (acct_of t) [1; 2] = [Some (97, 1, 0); Some (53, 0, 0)] /\ [stor t 4 1; stor t 4 2; stor t 4 3] = [9; 3; 3].
 Proof. vm_compute. repeat split; reflexivity. Qed.
 
 (** ---- the behaviour before commit 72672e0 violates the property (vm_compute witnesses) ---- *)
@@ -109,7 +121,7 @@ Definition w_supply_mint : list prog :=
   [OSubBalance 1 (5 * U); OAddBalance 2 (5 * U);
    PFrame [PPrecompile [] false; OSubBalance 1 U; OAddBalance 3 U] true].
 Definition w_stale_object : list prog :=
-  [PFrame [PPrecompile [(1, 2, 3)] false] true; OSubBalance 1 U; OAddBalance 2 U].
+  [PFrame [PPrecompile [OBankSend 1 2 3] false] true; OSubBalance 1 U; OAddBalance 2 U].
 Definition w_forgotten_selfdestruct : list prog :=
   [OSuicide 4 3; PFrame [OAddBalance 1 0; PPrecompile [] false] true].
 
@@ -119,3 +131,73 @@ Lemma frame_atomicity_refuted_before_fix :
                    agrees_at true 10 t_w w [1; 2; 3; 4] [1] = true)
          [w_lost_sstore; w_supply_mint; w_stale_object; w_forgotten_selfdestruct].
 Proof. repeat constructor; vm_compute; reflexivity. Qed.
+
+(** ---- the cache context handed to precompile bodies: [run_h] ---- *)
+Lemma run_h_frame live hd body rv h :
+  run_h live hd (PFrame body rv) h =
+  if rv then h_unwind (length (journal (h_db h))) (run_h_body live hd body h) else run_h_body live hd body h.
+Proof. reflexivity. Qed.
+Lemma run_h_precompile live hd body fails h :
+  run_h live hd (PPrecompile body fails) h = h_pc_shell h (fun e => run_h_body live (Some e) body) fails.
+Proof. reflexivity. Qed.
+Lemma run_h_body_cons live hd p t h : run_h_body live hd (p :: t) h = run_h_body live hd t (run_h live hd p h).
+Proof. reflexivity. Qed.
+
+Lemma h_unwind_db n h : h_db (h_unwind n h) = unwind n (h_db h).
+Proof. unfold h_unwind. destruct (reverts_pc n (h_db h)); reflexivity. Qed.
+
+(** With [live := true] (the context resolves to the StateDB's current cache multistore — the
+    repaired code) the handles play no role: [run_h] is [run], whatever the handle, the epoch and the
+    detached objects.  So [run_h] differs from the model the theorems are about by the flag only. *)
+Lemma run_h_live_n n : forall p hd h, (psize p <= n)%nat -> h_db (run_h true hd p h) = run p (h_db h).
+Proof.
+  induction n as [|n IH]; intros p hd h Hn.
+  - destruct p; simpl in Hn; lia.
+  - assert (Hbody : forall l hd0 h0, (list_sum (map psize l) <= n)%nat ->
+              h_db (run_h_body true hd0 l h0) = run_body l (h_db h0)).
+    { induction l as [|x t IHl]; intros hd0 h0 Hl; [reflexivity|].
+      rewrite run_h_body_cons, run_body_cons. simpl in Hl.
+      rewrite IHl by lia. rewrite (IH x) by lia. reflexivity. }
+    destruct p; try reflexivity.
+    + (* OBankSend *)
+      cbn [run_h run]. unfold h_bank_send. destruct hd; reflexivity.
+    + (* PFrame *)
+      cbn [psize] in Hn. rewrite run_h_frame, run_frame.
+      destruct reverted; [rewrite h_unwind_db|]; rewrite Hbody by lia; reflexivity.
+    + (* PPrecompile *)
+      cbn [psize] in Hn. rewrite run_h_precompile, run_precompile.
+      unfold h_pc_shell, pc_shell.
+      destruct (maxc (cf (h_db h)) <? calls (precompile_snapshot (h_db h))); [rewrite h_unwind_db; reflexivity|].
+      destruct (flush_fail (precompile_snapshot (h_db h))); [rewrite h_unwind_db; reflexivity|].
+      destruct fails; [rewrite h_unwind_db|]; rewrite Hbody by lia; reflexivity.
+Qed.
+
+Lemma run_h_live p hd h : h_db (run_h true hd p h) = run p (h_db h).
+Proof. apply (run_h_live_n (psize p)). lia. Qed.
+
+(** ---- the behaviour before the repair "cacheStore cell" violates the property ----
+    sendToBank-like call: a nested precompile call (made by the ERC20 the body calls) moves 4 unibi
+    1 -> 3 and fails, so only that call frame is reverted; the body then moves 1 unibi 1 -> 2 and the
+    transaction succeeds.  Reference: 99 / 51 / account 3 absent.  Old code: the body's context still
+    points to the multistore object that was detached by the nested revert (it holds 96 / 50 / 4): the
+    move is made there and lost, but the balances read back from it (95 and 51) are mirrored into
+    the StateDB and committed — 4 unibi vanish although the frame that moved them was reverted. *)
+Definition agrees_stale_at (mx : Z) (t0 : store) (body : list prog) (al : list addr) (kl : list key) : bool :=
+  let t := commit (run_stale (PFrame body false) (init {| repaired := true; maxc := mx; blocked := [] |} t0)) in
+  let r := r_final (rrun mx (PFrame body false) (r_init [] t0)) in
+  forallb (fun a => acct_eqb (acct_of t a) (acct_of r a)) al &&
+  forallb (fun a => forallb (fun k => stor t a k =? stor r a k) kl) al.
+
+Definition w_nested_stale_ctx : list prog :=
+  [PPrecompile [PPrecompile [OBankSend 1 3 4] true; OBankSend 1 2 1] false].
+
+Lemma nested_stale_ctx_refuted :
+  exists w : list prog,
+    wf_body 10 w (r_init [] t_w) = true /\
+    agrees_stale_at 10 t_w w [1; 2; 3; 4] [1] = false /\
+    agrees_at true 10 t_w w [1; 2; 3; 4] [1] = true /\
+    (let old := commit (run_stale (PFrame w false) (init {| repaired := true; maxc := 10; blocked := [] |} t_w)) in
+     let ref := r_final (rrun 10 (PFrame w false) (r_init [] t_w)) in
+     map (acct_of old) [1; 2; 3] = [Some (95, 1, 0); Some (51, 0, 0); None] /\
+     map (acct_of ref) [1; 2; 3] = [Some (99, 1, 0); Some (51, 0, 0); None]).
+Proof. exists w_nested_stale_ctx. vm_compute. repeat split; reflexivity. Qed.
